@@ -291,7 +291,7 @@ impl Property for C20 {
         }
     }
     fn rule(&self) -> &'static str {
-        "kind 0: Vtx values built directly (0..400 frames of random register bytes, R13=0xFF in a seeded share, player frequency 1..255, rates 8000..384000, mono/stereo, all stereo layouts, AY/YM) played on a recording backend under a seeded partition of the output into play() buffer lengths (1, 2, odd, prime, huge, mixed; odd lengths and length 1 in stereo): register-write schedule, totals, end reporting, stream order; kind 1: the same on the real AymPrecise with i8/i16/i32/f32/f64 buffers, chunked stream must be bit-identical to the one-buffer stream; kind 2: Vtx::load of generated files (header + strings + literal-only LH5 payload) and of the repository's four files; distinct = (kind, frames bucket, samples-per-frame bucket, stereo, partition style, sample type)"
+        "kind 0: Vtx values built directly (0..400 frames of random register bytes, R13=0xFF in a seeded share, player frequency 1..255, rates 8000..384000, mono/stereo, all stereo layouts, AY/YM) played on a recording backend under a seeded partition of the output into play() buffer lengths (1, 2, odd, prime, huge, mixed; odd lengths and length 1 in stereo): register-write schedule, totals, end reporting, stream order; kind 1: the same on the real AymPrecise with i8/i16/i32/f32/f64 buffers, chunked stream must be bit-identical to the one-buffer stream; kind 2: Vtx::load of generated files (header + strings + literal-only LH5 payload) and of the repository's four files; logs of 65535..131073 frames (seed-generated) in kinds 0, 2 and 3; distinct = (kind, frames bucket, samples-per-frame bucket, stereo, partition style, sample type)"
     }
     fn state_measure(&self) -> &'static str {
         "distinct (frame_sample position mod spf at a buffer boundary, stereo) pairs"
